@@ -2,7 +2,7 @@
 
 package clone
 
-// Contracts for the clone plugin (C09, C01: generator-level and text-level obligations), read by /verif's gvc (comment-only file).
+// Contracts for the clone plugin (C05, C09, C01), read by /verif's gvc (comment-only file).
 
 //@ func (g *gen) Add(name string, typs []types.Type) (r string, err error)
 //@ param typs: len=0,1,2,3
@@ -10,4 +10,13 @@ package clone
 
 //@ func (g *gen) Generate(typs []types.Type) (err error)
 //@ param typs: len=1
+
+// deriveClone allocates the destination and delegates to derived DeepCopy: the
+// result is structurally equal to the source (same nil-ness) and freshly allocated.
+//@ func (g *gen) genFuncFor(in types.Type) (err error)
 //@ emits: decls
+//@ serves: clone len=1 in=typs[0]
+//@ o-sig: (src $in) (r $in)
+//@ o-header: unchecked
+//@ o-no-sharing
+//@ o-ensures: [clone-equals-source] EqC(in, r, src)
